@@ -883,6 +883,7 @@ def propagate(fn, facts=None):
                                                                ast.Store):
                     attr_stores.add(unparse(e))
     mapping = {}
+    drop = set()
     for name, lst in assigns.items():
         if stores.get(name, 0) != 1 or name in params or len(lst) != 1:
             continue
@@ -898,6 +899,29 @@ def propagate(fn, facts=None):
             ok = unparse(v) not in attr_stores and not any(
                 a.startswith(unparse(v) + '.') or unparse(v).startswith(a + '.')
                 for a in attr_stores)
+        elif isinstance(v, ast.Name) and v.id != name and (
+                (stores.get(v.id, 0) == 1 and v.id not in params) or
+                (stores.get(v.id, 0) == 0 and v.id in params)):
+            # plain alias of another name that is bound exactly once: both
+            # names denote the same object for the whole function
+            if not _rebound_between(fn, lst[0], name, {v.id}):
+                mapping[name] = v
+                drop.add(id(lst[0]))
+            continue
+        elif isinstance(v, ast.Call) and isinstance(v.func, ast.Attribute) \
+                and v.func.attr in ('values', 'keys', 'items') and \
+                not v.args and not v.keywords and (
+                    isinstance(v.func.value, ast.Name) or
+                    _self_path(v.func.value)):
+            # live view of a mapping: evaluating it at the use gives a view of
+            # the same mapping as long as the receiver is not re-bound
+            ops = {n.id for n in ast.walk(v) if isinstance(n, ast.Name)}
+            if not _rebound_between(fn, lst[0], name, ops - {'self'}) and (
+                    not _self_path(v.func.value) or
+                    unparse(v.func.value) not in attr_stores):
+                mapping[name] = v
+                drop.add(id(lst[0]))
+            continue
         if ok and _self_path(v) and _container_alias(fn, name, v, facts):
             pass        # reference to a container attribute never rebound
         elif ok and _stale_between(fn, lst[0], name, v):
@@ -916,8 +940,33 @@ def propagate(fn, facts=None):
         def visit_FunctionDef(self, node):
             return node
         visit_Lambda = visit_FunctionDef
+    # alias chains: a -> b, b -> c  =>  a -> c
+    for _ in range(4):
+        for k, v in list(mapping.items()):
+            if isinstance(v, ast.Name) and v.id in mapping:
+                mapping[k] = mapping[v.id]
     for i, s in enumerate(fn.body):
         fn.body[i] = P().visit(s)
+    if drop:
+        def prune(stmts):
+            out = []
+            for st in stmts:
+                if id(st) in drop:
+                    continue
+                if isinstance(st, (ast.FunctionDef, ast.ClassDef,
+                                   ast.AsyncFunctionDef)):
+                    out.append(st)
+                    continue
+                for fld in ('body', 'orelse', 'finalbody'):
+                    b = getattr(st, fld, None)
+                    if isinstance(b, list) and b and \
+                            isinstance(b[0], ast.stmt):
+                        setattr(st, fld, prune(b) or [ast.Pass()])
+                for h in getattr(st, 'handlers', []) or []:
+                    h.body = prune(h.body) or [ast.Pass()]
+                out.append(st)
+            return out
+        fn.body = prune(fn.body) or [ast.Pass()]
     ast.fix_missing_locations(fn)
     return True
 
@@ -1400,6 +1449,10 @@ def normalized_program(prog, desugar=True):
                 any_change = True
         if not any_change:
             break
+    # freshly inlined code gets the canonical spelling as well
+    from .canon import canonicalize
+    for t in trees.values():
+        canonicalize(t)
     facts = package_facts(p2)
     for f in all_funcs():
         if inline_adjacent_tests(f.node):
